@@ -12,13 +12,16 @@ import NadaVerif.Trace
 
 namespace NadaVerif
 
+/-- ids start at 1 (`next_operation_id` increments before it returns); 0 is never an id and is left alone -/
+def sh (k i : Nat) : Nat := if i = 0 then 0 else i + k
+
 mutual
 def Val.shift (k : Nat) : Val → Val
-  | .scalar t c l => .scalar t (c.map (· + k)) l
-  | .array e n c => .array (Elem.shift k e) n (c.map (· + k))
-  | .tuple l r c => .tuple (Elem.shift k l) (Elem.shift k r) (c.map (· + k))
-  | .ntuple vs c => .ntuple (Vals.shift k vs) (c.map (· + k))
-  | .object fs c => .object (VFields.shift k fs) (c.map (· + k))
+  | .scalar t c l => .scalar t (c.map (sh k)) l
+  | .array e n c => .array (Elem.shift k e) n (c.map (sh k))
+  | .tuple l r c => .tuple (Elem.shift k l) (Elem.shift k r) (c.map (sh k))
+  | .ntuple vs c => .ntuple (Vals.shift k vs) (c.map (sh k))
+  | .object fs c => .object (VFields.shift k fs) (c.map (sh k))
 def Elem.shift (k : Nat) : Elem → Elem
   | .cls t => .cls t
   | .inst v => .inst (Val.shift k v)
@@ -34,29 +37,29 @@ end
 
 def RVal.shift (k : Nat) : RVal → RVal
   | .val v => .val (v.shift k)
-  | .fn id ret ps => .fn (id + k) ret ps
+  | .fn id ret ps => .fn (sh k id) ret ps
   | .party n => .party n
-  | .input id n p d => .input (id + k) n p d
+  | .input id n p d => .input (sh k id) n p d
   | .dead => .dead
 
 def Frame.shift (k : Nat) (f : Frame) : Frame :=
-  { f with fid := f.fid + k, params := f.params.map fun p => (p.1 + k, p.2.shift k) }
+  { f with fid := sh k f.fid, params := f.params.map fun p => (sh k p.1, p.2.shift k) }
 
 def AstOp.shift (k : Nat) : AstOp → AstOp
-  | .binary n l r ty => .binary n (l + k) (r + k) ty
-  | .unary n c ty => .unary n (c + k) ty
-  | .ifElse c a b ty => .ifElse (c + k) (a + k) (b + k) ty
+  | .binary n l r ty => .binary n (sh k l) (sh k r) ty
+  | .unary n c ty => .unary n (sh k c) ty
+  | .ifElse c a b ty => .ifElse (sh k c) (sh k a) (sh k b) ty
   | .random ty => .random ty
   | .input n p d ty => .input n p d ty
   | .literal v i ty => .literal v i ty
-  | .reduce c f i ty => .reduce (c + k) (f + k) (i + k) ty
-  | .map c f ty => .map (c + k) (f + k) ty
-  | .new n es ty => .new n (es.map (· + k)) ty
-  | .call as f ty => .call (as.map (· + k)) (f + k) ty
-  | .argRef n f ty => .argRef n (f + k) ty
-  | .function n args c ty => .function n (args.map (· + k)) (c + k) ty
-  | .ntupleAcc i s ty => .ntupleAcc i (s + k) ty
-  | .objectAcc key s ty => .objectAcc key (s + k) ty
+  | .reduce c f i ty => .reduce (sh k c) (sh k f) (sh k i) ty
+  | .map c f ty => .map (sh k c) (sh k f) ty
+  | .new n es ty => .new n (es.map (sh k)) ty
+  | .call as f ty => .call (as.map (sh k)) (sh k f) ty
+  | .argRef n f ty => .argRef n (sh k f) ty
+  | .function n args c ty => .function n (args.map (sh k)) (sh k c) ty
+  | .ntupleAcc i s ty => .ntupleAcc i (sh k s) ty
+  | .objectAcc key s ty => .objectAcc key (sh k s) ty
 
 /-- forget the literal's position in the process-wide table -/
 def AstOp.eraseIdx : AstOp → AstOp
@@ -69,12 +72,13 @@ namespace NadaVerif.Lemmas
 open NadaVerif
 
 def eraseE (e : Id × AstOp) : Id × AstOp := (e.1, e.2.eraseIdx)
-def shiftEraseE (k : Nat) (e : Id × AstOp) : Id × AstOp := (e.1 + k, (e.2.shift k).eraseIdx)
+def shiftEraseE (k : Nat) (e : Id × AstOp) : Id × AstOp := (sh k e.1, (e.2.shift k).eraseIdx)
 
 /-- `t` is `s` shifted by `k` on top of `hist`, up to literal names -/
 structure Rel (k : Nat) (hist : List (Id × AstOp)) (s t : St) : Prop where
   counter : t.counter = s.counter + k
   ops : t.ops.map eraseE = s.ops.map (shiftEraseE k) ++ hist.map eraseE
+  old : ∀ (i : Nat) (op : AstOp), (i, op) ∈ hist → 1 ≤ i ∧ i ≤ k
 
 /-- the two computations behave alike from related states -/
 def Sim {α β : Type} (R : St → St → Prop) (Q : α → β → Prop) (x : M α) (y : M β) : Prop :=
@@ -121,22 +125,22 @@ open NadaVerif
 
 variable {k : Nat} {hist : List (Id × AstOp)}
 
-theorem Sim.alloc : Sim (Rel k hist) (fun a b => b = a + k) alloc alloc := by
+theorem Sim.alloc : Sim (Rel k hist) (fun a b => b = sh k a) alloc alloc := by
   intro s t hR
   simp only [alloc, ExceptT.run, StateT.run, Bind.bind, ExceptT.bind, ExceptT.mk, StateT.bind, ExceptT.bindCont, get, getThe,
     MonadStateOf.get, liftM, monadLift, MonadLift.monadLift, ExceptT.lift, StateT.get, Pure.pure, StateT.pure, set, MonadStateOf.set,
     StateT.set, Functor.map, StateT.map, ExceptT.pure]
-  refine ⟨?_, ⟨?_, hR.ops⟩⟩
-  · rw [hR.counter]; omega
+  refine ⟨?_, ⟨?_, hR.ops, hR.old⟩⟩
+  · rw [hR.counter]; simp only [sh, Nat.add_one_ne_zero, if_false]; omega
   · simp only [hR.counter]; omega
 
-theorem Sim.put {i j : Id} {op op' : AstOp} (hi : j = i + k) (hop : op'.eraseIdx = (op.shift k).eraseIdx) :
+theorem Sim.put {i j : Id} {op op' : AstOp} (hi : j = sh k i) (hop : op'.eraseIdx = (op.shift k).eraseIdx) :
     Sim (Rel k hist) (fun _ _ => True) (put i op) (put j op') := by
   intro s t hR
   subst hi
   simp only [put, modify, modifyGet, MonadStateOf.modifyGet, ExceptT.run, StateT.run, liftM, monadLift, MonadLift.monadLift,
     ExceptT.lift, StateT.modifyGet, Functor.map, StateT.map, Pure.pure, StateT.pure, ExceptT.mk, Bind.bind, StateT.bind]
-  refine ⟨trivial, ⟨hR.counter, ?_⟩⟩
+  refine ⟨trivial, ⟨hR.counter, ?_, hR.old⟩⟩
   simp only [List.map_cons, List.cons_append, hR.ops, eraseE, shiftEraseE, hop]
 
 theorem litIndex_run (key : String) (s : St) :
@@ -158,7 +162,7 @@ theorem Sim.litIndex (key : String) : Sim (Rel k hist) (fun _ _ => True) (litInd
   obtain ⟨i, l, hs⟩ := litIndex_run key s
   obtain ⟨j, l', ht⟩ := litIndex_run key t
   rw [hs, ht]
-  exact ⟨trivial, ⟨hR.counter, hR.ops⟩⟩
+  exact ⟨trivial, ⟨hR.counter, hR.ops, hR.old⟩⟩
 
 theorem Sim.liftE {α} {R : St → St → Prop} (e : Except Err α) : Sim R (fun a b => b = a) (liftE e) (liftE e) := by
   cases e with
@@ -202,7 +206,7 @@ theorem fieldTypes_shift (k : Nat) : ∀ (fs : VFields), (fs.shift k).memberType
   | .cons n v fs => by simp [VFields.shift, VFields.memberTypes, toMir_shift k v, fieldTypes_shift k fs]
 end
 
-theorem child_shift (k : Nat) (v : Val) : (v.shift k).child = v.child.map (· + k) := by
+theorem child_shift (k : Nat) (v : Val) : (v.shift k).child = v.child.map (sh k) := by
   cases v <;> simp [Val.shift, Val.child]
 
 theorem mkLiteral_sim (base : Base) (v : LitVal) :
@@ -266,7 +270,7 @@ theorem getVal_sim {R : St → St → Prop} (regs : List RVal) (r : Reg) :
     · exact Sim.throw _
 
 theorem getScalar_sim {R : St → St → Prop} (regs : List RVal) (r : Reg) :
-    Sim R (fun a b => b = (a.1, a.2.1 + k, a.2.2)) (getScalar regs r) (getScalar (shiftRegs k regs) r) := by
+    Sim R (fun a b => b = (a.1, sh k a.2.1, a.2.2)) (getScalar regs r) (getScalar (shiftRegs k regs) r) := by
   unfold getScalar
   refine Sim.bind (getVal_sim regs r) (fun a b hab => ?_)
   subst hab
@@ -306,5 +310,956 @@ theorem es_bin (regs : List RVal) (frames : List Frame) (op a b) : ExecSim k his
   refine Sim.bind (scalarResult_sim _ _ _ _ _ _ (by intro ty; simp [AstOp.shift])) (fun v w hvw => ?_)
   subst hvw
   exact one_sim frames v
+
+end NadaVerif.Lemmas
+
+namespace NadaVerif.Lemmas
+open NadaVerif
+
+variable {k : Nat} {hist : List (Id × AstOp)}
+
+syntax "sim_scalar " term:max term:max : tactic
+macro_rules
+  | `(tactic| sim_scalar $regs $a) =>
+    `(tactic| (refine Sim.bind (getScalar_sim $regs $a) (fun x y hxy => ?_); subst hxy; obtain ⟨_, _, _⟩ := x; simp only))
+
+syntax "sim_result" : tactic
+macro_rules
+  | `(tactic| sim_result) =>
+    `(tactic| (refine Sim.bind (scalarResult_sim _ _ _ _ _ _ (by intro ty; simp [AstOp.shift])) (fun v w hvw => ?_); subst hvw;
+               exact one_sim _ v))
+
+theorem es_nop (regs : List RVal) (frames : List Frame) : ExecSim k hist regs frames .nop := by
+  unfold ExecSim exec; exact Sim.throw _
+
+theorem es_party (regs : List RVal) (frames : List Frame) (n) : ExecSim k hist regs frames (.party n) := by
+  unfold ExecSim exec; exact Sim.pure (by simp [ResRel, shiftRegs, RVal.shift])
+
+theorem es_invert (regs : List RVal) (frames : List Frame) (a) : ExecSim k hist regs frames (.invert a) := by
+  unfold ExecSim exec
+  simp only
+  sim_scalar regs a
+  sim_result
+
+theorem es_truncPr (regs : List RVal) (frames : List Frame) (a b) : ExecSim k hist regs frames (.truncPr a b) := by
+  unfold ExecSim exec
+  simp only
+  sim_scalar regs a
+  sim_scalar regs b
+  sim_result
+
+theorem es_publicEquals (regs : List RVal) (frames : List Frame) (a b) : ExecSim k hist regs frames (.publicEquals a b) := by
+  unfold ExecSim exec
+  simp only
+  sim_scalar regs a
+  sim_scalar regs b
+  sim_result
+
+theorem es_ifElse (regs : List RVal) (frames : List Frame) (c a b) : ExecSim k hist regs frames (.ifElse c a b) := by
+  unfold ExecSim exec
+  simp only
+  sim_scalar regs c
+  sim_scalar regs a
+  sim_scalar regs b
+  sim_result
+
+theorem es_random (regs : List RVal) (frames : List Frame) (t) : ExecSim k hist regs frames (.random t) := by
+  unfold ExecSim exec
+  simp only
+  sim_result
+
+theorem es_reveal (regs : List RVal) (frames : List Frame) (a) : ExecSim k hist regs frames (.reveal a) := by
+  unfold ExecSim exec
+  simp only
+  sim_scalar regs a
+  split
+  · exact Sim.pure (by simp [ResRel, shiftRegs, RVal.shift, Val.shift])
+  · sim_result
+
+end NadaVerif.Lemmas
+
+namespace NadaVerif.Lemmas
+open NadaVerif
+
+variable {k : Nat} {hist : List (Id × AstOp)}
+
+theorem es_lit (regs : List RVal) (frames : List Frame) (base v) : ExecSim k hist regs frames (.lit base v) := by
+  unfold ExecSim exec
+  simp only
+  split
+  all_goals first
+    | exact Sim.throw _
+    | (refine Sim.bind (mkLiteral_sim _ _) (fun v w hvw => ?_); subst hvw; exact one_sim _ v)
+
+theorem es_radd (regs : List RVal) (frames : List Frame) (n a) : ExecSim k hist regs frames (.radd n a) := by
+  unfold ExecSim exec
+  simp only
+  sim_scalar regs a
+  split
+  · exact Sim.throw _
+  · refine Sim.bind (mkLiteral_sim _ _) (fun v w hvw => ?_)
+    subst hvw
+    cases v with
+    | scalar tl cl ll =>
+      cases cl with
+      | none => exact Sim.throw _
+      | some cl =>
+        simp only [Val.shift, Option.map]
+        sim_result
+    | _ => exact Sim.throw _
+
+theorem es_inputObj (regs : List RVal) (frames : List Frame) (name doc p) : ExecSim k hist regs frames (.inputObj name doc p) := by
+  unfold ExecSim exec
+  simp only
+  rw [shiftRegs_get]
+  cases h : regs[p]? with
+  | none => exact Sim.throw _
+  | some x =>
+    cases x <;> simp only [Option.map, RVal.shift]
+    case party pn =>
+      refine Sim.bind Sim.alloc (fun a b hab => ?_)
+      subst hab
+      exact Sim.pure (by simp [ResRel, shiftRegs, RVal.shift])
+    all_goals exact Sim.throw _
+
+theorem es_wrap (regs : List RVal) (frames : List Frame) (t r) : ExecSim k hist regs frames (.wrap t r) := by
+  unfold ExecSim exec
+  simp only
+  rw [shiftRegs_get]
+  cases h : regs[r]? with
+  | none => exact Sim.throw _
+  | some x =>
+    cases x <;> simp only [Option.map, RVal.shift]
+    case input id name pn doc =>
+      split
+      · exact Sim.throw _
+      · refine Sim.bind (Sim.put rfl (by simp [AstOp.shift])) (fun _ _ _ => ?_)
+        exact Sim.pure (by simp [ResRel, shiftRegs, RVal.shift, Val.shift])
+    all_goals exact Sim.throw _
+
+end NadaVerif.Lemmas
+
+namespace NadaVerif.Lemmas
+open NadaVerif
+
+variable {k : Nat} {hist : List (Id × AstOp)}
+
+theorem mapM_cons_M {α β} (f : α → M β) (x : α) (xs : List α) :
+    (x :: xs).mapM f = (do let b ← f x; let bs ← xs.mapM f; pure (b :: bs)) := by
+  simp [List.mapM_cons]
+
+theorem mapM_getVal_sim {R : St → St → Prop} (regs : List RVal) : ∀ (xs : List Reg),
+    Sim R (fun a b => b = a.map (Val.shift k)) (xs.mapM (getVal regs)) (xs.mapM (getVal (shiftRegs k regs)))
+  | [] => by simpa using Sim.pure (by simp)
+  | x :: xs => by
+    rw [mapM_cons_M, mapM_cons_M]
+    refine Sim.bind (getVal_sim regs x) (fun a b hab => ?_)
+    subst hab
+    refine Sim.bind (mapM_getVal_sim regs xs) (fun as bs h => ?_)
+    subst h
+    exact Sim.pure (by simp)
+
+theorem childOf_sim {R : St → St → Prop} (v : Val) :
+    Sim R (fun a b => b = sh k a) (childOf v) (childOf (v.shift k)) := by
+  unfold childOf
+  rw [child_shift]
+  cases v.child with
+  | none => exact Sim.throw _
+  | some c => exact Sim.pure rfl
+
+theorem childIds_sim {R : St → St → Prop} : ∀ (vs : List Val),
+    Sim R (fun a b => b = a.map (sh k)) (childIds vs) (childIds (vs.map (Val.shift k)))
+  | [] => by simpa [childIds] using Sim.pure (by simp)
+  | v :: vs => by
+    unfold childIds
+    rw [List.map_cons, mapM_cons_M, mapM_cons_M]
+    refine Sim.bind (childOf_sim v) (fun a b hab => ?_)
+    subst hab
+    refine Sim.bind (childIds_sim vs) (fun as bs h => ?_)
+    subst h
+    exact Sim.pure (by simp)
+
+theorem mapM_toMir_sim {R : St → St → Prop} : ∀ (vs : List Val),
+    Sim R (fun a b => b = a) (vs.mapM (fun v => liftE v.toMir)) ((vs.map (Val.shift k)).mapM (fun v => liftE v.toMir))
+  | [] => by simpa using Sim.pure (by simp)
+  | v :: vs => by
+    rw [List.map_cons, mapM_cons_M, mapM_cons_M, toMir_shift]
+    refine Sim.bind (Sim.liftE _) (fun a b hab => ?_)
+    subst hab
+    refine Sim.bind (mapM_toMir_sim vs) (fun as bs h => ?_)
+    subst h
+    exact Sim.pure rfl
+
+theorem sameClass_shift (a b : Val) : sameClass (a.shift k) (b.shift k) = sameClass a b := by
+  cases a <;> cases b <;> simp [Val.shift, sameClass]
+
+theorem ofList_shift : ∀ (vs : List Val), Vals.ofList (vs.map (Val.shift k)) = (Vals.ofList vs).shift k
+  | [] => by simp [Vals.ofList, Vals.shift]
+  | v :: vs => by simp [Vals.ofList, Vals.shift, ofList_shift vs]
+
+theorem toList_shift : ∀ (vs : Vals), (vs.shift k).toList = vs.toList.map (Val.shift k)
+  | .nil => by simp [Vals.toList, Vals.shift]
+  | .cons v vs => by simp [Vals.toList, Vals.shift, toList_shift vs]
+
+theorem fofList_shift : ∀ (fs : List (String × Val)),
+    VFields.ofList (fs.map fun p => (p.1, p.2.shift k)) = (VFields.ofList fs).shift k
+  | [] => by simp [VFields.ofList, VFields.shift]
+  | (n, v) :: fs => by simp [VFields.ofList, VFields.shift, fofList_shift fs]
+
+theorem ftoList_shift : ∀ (fs : VFields), (fs.shift k).toList = fs.toList.map fun p => (p.1, p.2.shift k)
+  | .nil => by simp [VFields.toList, VFields.shift]
+  | .cons n v fs => by simp [VFields.toList, VFields.shift, ftoList_shift fs]
+
+theorem withChild_shift (v : Val) (c : Id) : (v.shift k).withChild (sh k c) = (v.withChild c).shift k := by
+  cases v <;> simp [Val.shift, Val.withChild]
+
+theorem isLiteralScalar_shift (v : Val) : isLiteralScalar (v.shift k) = isLiteralScalar v := by
+  cases v <;> simp [Val.shift, isLiteralScalar]
+
+theorem scalarClass_shift (e : Elem) : (e.shift k).scalarClass = e.scalarClass := by
+  cases e with
+  | inst v => cases v <;> simp [Elem.shift, Val.shift, Elem.scalarClass]
+  | _ => simp [Elem.shift, Elem.scalarClass]
+
+end NadaVerif.Lemmas
+
+namespace NadaVerif.Lemmas
+open NadaVerif
+
+variable {k : Nat} {hist : List (Id × AstOp)}
+
+theorem Sim.ite {α β} {R : St → St → Prop} {Q : α → β → Prop} {c : Prop} [Decidable c] {x y : M α} {x' y' : M β}
+    (h1 : Sim R Q x x') (h2 : Sim R Q y y') : Sim R Q (if c then x else y) (if c then x' else y') := by
+  split <;> assumption
+
+theorem toMir_array_inst (v : Val) (n : Option Int) (c c' : Option Id) :
+    (Val.array (.inst (v.shift k)) n c').toMir = (Val.array (.inst v) n c).toMir := by
+  simp [Val.toMir, Elem.innerType, toMir_shift]
+
+theorem es_arrayNew (regs : List RVal) (frames : List Frame) (xs) : ExecSim k hist regs frames (.arrayNew xs) := by
+  unfold ExecSim exec
+  simp only
+  refine Sim.bind (mapM_getVal_sim regs xs) (fun vs ws h => ?_)
+  subst h
+  cases vs with
+  | nil => exact Sim.throw _
+  | cons first rest =>
+    simp only [List.map_cons]
+    rw [toMir_shift]
+    refine Sim.bind (Sim.liftE _) (fun fty fty' h => ?_)
+    subst h
+    have hm := mapM_toMir_sim (R := Rel k hist) (k := k) (first :: rest)
+    simp only [List.map_cons] at hm
+    refine Sim.bind hm (fun tys tys' h => ?_)
+    subst h
+    simp only [List.all_cons, List.all_map, sameClass_shift, Function.comp_def, List.length_cons, List.length_map]
+    refine Sim.ite (Sim.throw _) ?_
+    · refine Sim.bind Sim.alloc (fun a b hab => ?_)
+      subst hab
+      rw [toMir_array_inst first _ (some a)]
+      refine Sim.bind (Sim.liftE _) (fun ty ty' h => ?_)
+      subst h
+      have hc := childIds_sim (R := Rel k hist) (k := k) (first :: rest)
+      simp only [List.map_cons] at hc
+      refine Sim.bind hc (fun ids ids' h => ?_)
+      subst h
+      refine Sim.bind (Sim.put rfl (by simp [AstOp.shift])) (fun _ _ _ => ?_)
+      exact Sim.pure (by simp [ResRel, shiftRegs, RVal.shift, Val.shift, Elem.shift])
+
+end NadaVerif.Lemmas
+
+namespace NadaVerif.Lemmas
+open NadaVerif
+
+variable {k : Nat} {hist : List (Id × AstOp)}
+
+syntax "sim_val " term:max term:max : tactic
+macro_rules
+  | `(tactic| sim_val $regs $a) =>
+    `(tactic| (refine Sim.bind (getVal_sim $regs $a) (fun x y hxy => ?_); subst hxy))
+
+syntax "sim_alloc" : tactic
+macro_rules
+  | `(tactic| sim_alloc) => `(tactic| (refine Sim.bind Sim.alloc (fun a b hab => ?_); subst hab))
+
+syntax "sim_liftE" : tactic
+macro_rules
+  | `(tactic| sim_liftE) => `(tactic| (refine Sim.bind (Sim.liftE _) (fun ty ty' hty => ?_); subst hty))
+
+syntax "sim_put" : tactic
+macro_rules
+  | `(tactic| sim_put) => `(tactic| (refine Sim.bind (Sim.put rfl (by simp [AstOp.shift])) (fun _ _ _ => ?_)))
+
+syntax "sim_done" : tactic
+macro_rules
+  | `(tactic| sim_done) => `(tactic| exact Sim.pure (by simp [ResRel, shiftRegs, RVal.shift, Val.shift, Elem.shift]))
+
+theorem toMir_tuple_inst (a b : Val) (c c' : Option Id) :
+    (Val.tuple (.inst (a.shift k)) (.inst (b.shift k)) c').toMir = (Val.tuple (.inst a) (.inst b) c).toMir := by
+  simp [Val.toMir, Elem.sideType, toMir_shift]
+
+theorem es_tupleNew (regs : List RVal) (frames : List Frame) (a b) : ExecSim k hist regs frames (.tupleNew a b) := by
+  unfold ExecSim exec
+  simp only
+  sim_val regs a
+  rename_i va
+  sim_val regs b
+  rename_i vb
+  sim_alloc
+  rename_i id
+  rw [toMir_tuple_inst va vb (some id)]
+  sim_liftE
+  have hc := childIds_sim (R := Rel k hist) (k := k) [va, vb]
+  simp only [List.map_cons, List.map_nil] at hc
+  refine Sim.bind hc (fun ids ids' h => ?_)
+  subst h
+  sim_put
+  sim_done
+
+theorem toMir_ntuple_ofList (vs : List Val) (c c' : Option Id) :
+    (Val.ntuple (Vals.ofList (vs.map (Val.shift k))) c').toMir = (Val.ntuple (Vals.ofList vs) c).toMir := by
+  simp [Val.toMir, ofList_shift, memberTypes_shift]
+
+theorem es_ntupleNew (regs : List RVal) (frames : List Frame) (xs) : ExecSim k hist regs frames (.ntupleNew xs) := by
+  unfold ExecSim exec
+  simp only
+  refine Sim.bind (mapM_getVal_sim regs xs) (fun vs ws h => ?_)
+  subst h
+  sim_alloc
+  rename_i id
+  rw [toMir_ntuple_ofList vs (some id)]
+  sim_liftE
+  refine Sim.bind (childIds_sim vs) (fun ids ids' h => ?_)
+  subst h
+  sim_put
+  exact Sim.pure (by simp [ResRel, shiftRegs, RVal.shift, Val.shift, ofList_shift])
+
+end NadaVerif.Lemmas
+
+namespace NadaVerif.Lemmas
+open NadaVerif
+
+variable {k : Nat} {hist : List (Id × AstOp)}
+
+theorem mapM_fields_sim {R : St → St → Prop} (regs : List RVal) : ∀ (fs : List (String × Reg)),
+    Sim R (fun a b => b = a.map fun p => (p.1, p.2.shift k))
+      (fs.mapM (fun (x : String × Reg) => do let v ← getVal regs x.2; pure (x.1, v)))
+      (fs.mapM (fun (x : String × Reg) => do let v ← getVal (shiftRegs k regs) x.2; pure (x.1, v)))
+  | [] => by simpa using Sim.pure (by simp)
+  | (n, r) :: fs => by
+    rw [mapM_cons_M, mapM_cons_M]
+    have h1 : Sim R (fun (a b : String × Val) => b = (a.1, a.2.shift k)) (do let v ← getVal regs r; pure (n, v))
+        (do let v ← getVal (shiftRegs k regs) r; pure (n, v)) :=
+      Sim.bind (getVal_sim regs r) (fun a b hab => Sim.pure (by subst hab; rfl))
+    refine Sim.bind h1 (fun a b hab => ?_)
+    subst hab
+    refine Sim.bind (mapM_fields_sim regs fs) (fun as bs h => ?_)
+    subst h
+    exact Sim.pure (by simp)
+
+theorem toMir_object_ofList (vs : List (String × Val)) (c c' : Option Id) :
+    (Val.object (VFields.ofList (vs.map fun p => (p.1, p.2.shift k))) c').toMir = (Val.object (VFields.ofList vs) c).toMir := by
+  simp [Val.toMir, fofList_shift, fieldTypes_shift]
+
+theorem es_objectNew (regs : List RVal) (frames : List Frame) (fs) : ExecSim k hist regs frames (.objectNew fs) := by
+  unfold ExecSim exec
+  simp only
+  refine Sim.bind (mapM_fields_sim regs fs) (fun vs ws h => ?_)
+  subst h
+  simp only [List.map_map, Function.comp_def, List.length_map]
+  refine Sim.ite (Sim.throw _) ?_
+  sim_alloc
+  rename_i id
+  rw [toMir_object_ofList vs (some id)]
+  sim_liftE
+  have hc := childIds_sim (R := Rel k hist) (k := k) (vs.map (·.2))
+  simp only [List.map_map, Function.comp_def] at hc
+  refine Sim.bind hc (fun ids ids' h => ?_)
+  subst h
+  sim_put
+  exact Sim.pure (by simp [ResRel, shiftRegs, RVal.shift, Val.shift, fofList_shift])
+
+end NadaVerif.Lemmas
+
+namespace NadaVerif.Lemmas
+open NadaVerif
+
+variable {k : Nat} {hist : List (Id × AstOp)}
+
+theorem genAccessor_sim (m : Val) (id : Id) (mk mk' : MTy → AstOp)
+    (hmk : ∀ ty, (mk' ty).eraseIdx = ((mk ty).shift k).eraseIdx) :
+    Sim (Rel k hist) (fun a b => b = a.shift k) (genAccessor m id mk) (genAccessor (m.shift k) (sh k id) mk') := by
+  cases m with
+  | scalar t c l =>
+    simp only [genAccessor, Val.shift]
+    refine Sim.ite (Sim.pure (by simp [Val.shift])) ?_
+    refine Sim.bind (Sim.put rfl (hmk _)) (fun _ _ _ => ?_)
+    exact Sim.pure (by simp [Val.shift])
+  | tuple l r c => simp only [genAccessor, Val.shift]; exact Sim.throw _
+  | array e n c =>
+    simp only [genAccessor, Val.shift]
+    have := withChild_shift (k := k) (.array e n c) id
+    simp only [Val.shift] at this
+    rw [this, toMir_shift]
+    sim_liftE
+    refine Sim.bind (Sim.put rfl (hmk _)) (fun _ _ _ => ?_)
+    exact Sim.pure rfl
+  | ntuple vs c =>
+    simp only [genAccessor, Val.shift]
+    have := withChild_shift (k := k) (.ntuple vs c) id
+    simp only [Val.shift] at this
+    rw [this, toMir_shift]
+    sim_liftE
+    refine Sim.bind (Sim.put rfl (hmk _)) (fun _ _ _ => ?_)
+    exact Sim.pure rfl
+  | object fs c =>
+    simp only [genAccessor, Val.shift]
+    have := withChild_shift (k := k) (.object fs c) id
+    simp only [Val.shift] at this
+    rw [this, toMir_shift]
+    sim_liftE
+    refine Sim.bind (Sim.put rfl (hmk _)) (fun _ _ _ => ?_)
+    exact Sim.pure rfl
+
+end NadaVerif.Lemmas
+
+namespace NadaVerif.Lemmas
+open NadaVerif
+
+variable {k : Nat} {hist : List (Id × AstOp)}
+
+theorem es_ntupleGet (regs : List RVal) (frames : List Frame) (r i) : ExecSim k hist regs frames (.ntupleGet r i) := by
+  unfold ExecSim exec
+  simp only
+  sim_val regs r
+  rename_i v
+  cases v with
+  | ntuple vs c =>
+    cases c with
+    | none => exact Sim.throw _
+    | some src =>
+      simp only [Val.shift, Option.map, toList_shift, List.length_map]
+      refine Sim.ite (Sim.throw _) ?_
+      sim_alloc
+      rw [List.getElem?_map]
+      cases vs.toList[(if i < 0 then i + ↑vs.toList.length else i).toNat]? with
+      | none => exact Sim.throw _
+      | some m =>
+        simp only [Option.map]
+        refine Sim.bind (genAccessor_sim m _ _ _ (by intro ty; simp [AstOp.shift])) (fun v w hvw => ?_)
+        subst hvw
+        exact one_sim _ v
+  | _ => exact Sim.throw _
+
+theorem es_objectGet (regs : List RVal) (frames : List Frame) (r key) : ExecSim k hist regs frames (.objectGet r key) := by
+  unfold ExecSim exec
+  simp only
+  sim_val regs r
+  rename_i v
+  cases v with
+  | object fs c =>
+    cases c with
+    | none => exact Sim.throw _
+    | some src =>
+      simp only [Val.shift, Option.map, ftoList_shift]
+      refine Sim.ite (Sim.throw _) ?_
+      rw [List.find?_map]
+      simp only [Function.comp_def]
+      cases fs.toList.find? (fun x => x.1 == key) with
+      | none => exact Sim.throw _
+      | some p =>
+        obtain ⟨n, m⟩ := p
+        simp only [Option.map]
+        sim_alloc
+        refine Sim.bind (genAccessor_sim m _ _ _ (by intro ty; simp [AstOp.shift])) (fun v w hvw => ?_)
+        subst hvw
+        exact one_sim _ v
+  | _ => exact Sim.throw _
+
+end NadaVerif.Lemmas
+
+namespace NadaVerif.Lemmas
+open NadaVerif
+
+variable {k : Nat} {hist : List (Id × AstOp)}
+
+theorem toMir_zip (ea eb : Elem) (n : Option Int) (c c' : Option Id) :
+    (Val.array (.inst (.tuple (ea.shift k) (eb.shift k) none)) n c').toMir =
+      (Val.array (.inst (.tuple ea eb none)) n c).toMir := by
+  simp [Val.toMir, Elem.innerType, sideType_shift]
+
+theorem es_zip (regs : List RVal) (frames : List Frame) (a b) : ExecSim k hist regs frames (.zip a b) := by
+  unfold ExecSim exec
+  simp only
+  sim_val regs a
+  rename_i va
+  sim_val regs b
+  rename_i vb
+  cases va with
+  | array ea na ca =>
+    cases ca with
+    | none => cases vb <;> exact Sim.throw _
+    | some ca =>
+      cases vb with
+      | array eb nb cb =>
+        cases cb with
+        | none => exact Sim.throw _
+        | some cb =>
+          simp only [Val.shift, Option.map]
+          refine Sim.ite (Sim.throw _) ?_
+          sim_alloc
+          rename_i id
+          rw [toMir_zip ea eb na (some id)]
+          sim_liftE
+          sim_put
+          sim_done
+      | _ => exact Sim.throw _
+  | _ => cases vb <;> exact Sim.throw _
+
+end NadaVerif.Lemmas
+
+namespace NadaVerif.Lemmas
+open NadaVerif
+
+variable {k : Nat} {hist : List (Id × AstOp)}
+
+theorem toMir_unzip (l r : Elem) (n : Option Int) (c c' : Option Id) :
+    (Val.tuple (.arrayType (l.shift k) n) (.arrayType (r.shift k) n) c').toMir =
+      (Val.tuple (.arrayType l n) (.arrayType r n) c).toMir := by
+  simp [Val.toMir, Elem.sideType, asInstance_shift]
+
+theorem es_unzip (regs : List RVal) (frames : List Frame) (a) : ExecSim k hist regs frames (.unzip a) := by
+  unfold ExecSim exec
+  simp only
+  sim_val regs a
+  rename_i va
+  cases va with
+  | array e n c =>
+    cases c with
+    | none => cases e <;> first | exact Sim.throw _ | (rename_i w; cases w <;> exact Sim.throw _)
+    | some ca =>
+      cases e with
+      | inst w =>
+        cases w with
+        | tuple l r c2 =>
+          simp only [Val.shift, Elem.shift, Option.map]
+          sim_alloc
+          rename_i id
+          rw [toMir_unzip l r n (some id)]
+          sim_liftE
+          sim_put
+          sim_done
+        | _ => exact Sim.throw _
+      | _ => exact Sim.throw _
+  | _ => exact Sim.throw _
+
+theorem es_map (regs : List RVal) (frames : List Frame) (a f) : ExecSim k hist regs frames (.map a f) := by
+  unfold ExecSim exec
+  simp only
+  sim_val regs a
+  rename_i va
+  rw [shiftRegs_get]
+  cases hf : regs[f]? with
+  | none => cases va <;> first | exact Sim.throw _ | (rename_i c; cases c <;> exact Sim.throw _)
+  | some rf =>
+    cases rf with
+    | fn fid ret ps =>
+      cases va with
+      | array e n c =>
+        cases c with
+        | none => exact Sim.throw _
+        | some ca =>
+          simp only [Val.shift, Option.map, RVal.shift]
+          sim_alloc
+          have ht : ∀ (c c' : Option Id), (Val.array (.cls ret) n c').toMir = (Val.array (.cls ret) n c).toMir := by
+            intro c c'; simp [Val.toMir]
+          sim_liftE
+          sim_put
+          sim_done
+      | _ => exact Sim.throw _
+    | dead => cases va <;> first | exact Sim.throw _ | (rename_i c; cases c <;> exact Sim.throw _)
+    | _ => cases va <;> first | exact Sim.throw _ | (rename_i c; cases c <;> exact Sim.throw _)
+
+end NadaVerif.Lemmas
+
+namespace NadaVerif.Lemmas
+open NadaVerif
+
+variable {k : Nat} {hist : List (Id × AstOp)}
+
+theorem es_reduce (regs : List RVal) (frames : List Frame) (a f init) : ExecSim k hist regs frames (.reduce a f init) := by
+  unfold ExecSim exec
+  simp only
+  sim_val regs a
+  rename_i va
+  sim_val regs init
+  rename_i vi
+  rw [shiftRegs_get]
+  cases hf : regs[f]? with
+  | none => cases va <;> first | exact Sim.throw _ | (rename_i c; cases c <;> exact Sim.throw _)
+  | some rf =>
+    cases rf with
+    | fn fid ret ps =>
+      cases va with
+      | array e n c =>
+        cases c with
+        | none => exact Sim.throw _
+        | some ca =>
+          simp only [Val.shift, Option.map, RVal.shift]
+          refine Sim.bind (childOf_sim vi) (fun ci ci' h => ?_)
+          subst h
+          sim_alloc
+          sim_put
+          sim_done
+      | _ => exact Sim.throw _
+    | dead => cases va <;> first | exact Sim.throw _ | (rename_i c; cases c <;> exact Sim.throw _)
+    | _ => cases va <;> first | exact Sim.throw _ | (rename_i c; cases c <;> exact Sim.throw _)
+
+theorem es_innerProduct (regs : List RVal) (frames : List Frame) (a b) : ExecSim k hist regs frames (.innerProduct a b) := by
+  unfold ExecSim exec
+  simp only
+  sim_val regs a
+  rename_i va
+  sim_val regs b
+  rename_i vb
+  cases va with
+  | array ea na ca =>
+    cases ca with
+    | none => cases vb <;> exact Sim.throw _
+    | some ca =>
+      cases vb with
+      | array eb nb cb =>
+        cases cb with
+        | none => exact Sim.throw _
+        | some cb =>
+          simp only [Val.shift, Option.map, innerType_shift, scalarClass_shift]
+          refine Sim.ite (Sim.throw _) ?_
+          sim_liftE
+          sim_liftE
+          refine Sim.ite (Sim.throw _) ?_
+          cases ea.scalarClass with
+          | none => exact Sim.throw _
+          | some tl =>
+            cases eb.scalarClass with
+            | none => exact Sim.throw _
+            | some tr =>
+              simp only
+              refine Sim.ite (Sim.throw _) ?_
+              refine Sim.ite (Sim.throw _) ?_
+              sim_alloc
+              sim_put
+              sim_done
+      | _ => exact Sim.throw _
+  | _ => cases vb <;> exact Sim.throw _
+
+end NadaVerif.Lemmas
+
+namespace NadaVerif.Lemmas
+open NadaVerif
+
+variable {k : Nat} {hist : List (Id × AstOp)}
+
+theorem template_sim : ∀ (ann : Ann), Sim (Rel k hist) (fun a b => b = a.shift k) (template ann) (template ann)
+  | .scalar t => by
+    unfold template
+    refine Sim.ite (mkLiteral_sim _ _) (Sim.pure (by simp [Val.shift]))
+  | .array inner => by
+    unfold template
+    refine Sim.bind (template_sim inner) (fun a b hab => ?_)
+    subst hab
+    exact Sim.pure (by simp [Val.shift, Elem.shift])
+  | .bareArray => by
+    unfold template
+    exact Sim.pure (by simp [Val.shift, Elem.shift])
+
+theorem bindParams_sim (fid : Id) : ∀ (ps : List (String × Ann)),
+    Sim (Rel k hist) (fun a b => b = (a.1.map (fun p => (sh k p.1, p.2.shift k)), shiftRegs k a.2))
+      (bindParams fid ps) (bindParams (sh k fid) ps)
+  | [] => by
+    unfold bindParams
+    exact Sim.pure (by simp [shiftRegs])
+  | (pname, ann) :: rest => by
+    unfold bindParams
+    refine Sim.bind (template_sim ann) (fun a b hab => ?_)
+    subst hab
+    sim_alloc
+    rw [toMir_shift]
+    sim_liftE
+    sim_put
+    refine Sim.bind (bindParams_sim fid rest) (fun x y hxy => ?_)
+    subst hxy
+    obtain ⟨ps, bound⟩ := x
+    exact Sim.pure (by simp [shiftRegs, RVal.shift, withChild_shift])
+
+theorem es_beginFn (regs : List RVal) (frames : List Frame) (name params) : ExecSim k hist regs frames (.beginFn name params) := by
+  unfold ExecSim exec
+  simp only
+  sim_alloc
+  refine Sim.bind (bindParams_sim _ params) (fun x y hxy => ?_)
+  subst hxy
+  obtain ⟨ps, bound⟩ := x
+  exact Sim.pure (by simp [ResRel, shiftFrames, Frame.shift])
+
+end NadaVerif.Lemmas
+
+namespace NadaVerif.Lemmas
+open NadaVerif
+
+variable {k : Nat} {hist : List (Id × AstOp)}
+
+theorem es_endFn (regs : List RVal) (frames : List Frame) (ret retAnn) : ExecSim k hist regs frames (.endFn ret retAnn) := by
+  unfold ExecSim exec
+  simp only
+  cases frames with
+  | nil => exact Sim.throw _
+  | cons fr rest =>
+    simp only [shiftFrames, List.map_cons]
+    rw [shiftRegs_get]
+    cases h : regs[ret]? with
+    | none => exact Sim.throw _
+    | some x =>
+      cases x <;> simp only [Option.map, RVal.shift]
+      case val v =>
+        refine Sim.ite (Sim.throw _) ?_
+        have hall : (Frame.shift k fr).params.all (fun p => isLiteralScalar p.2) = fr.params.all (fun p => isLiteralScalar p.2) := by
+          simp [Frame.shift, List.all_map, Function.comp_def, isLiteralScalar_shift]
+        rw [hall]
+        refine Sim.ite (Sim.throw _) ?_
+        cases v with
+        | scalar t c l =>
+          cases c with
+          | none => exact Sim.throw _
+          | some c =>
+            simp only [Val.shift, Option.map]
+            refine Sim.ite (Sim.throw _) ?_
+            refine Sim.bind (Sim.put (by simp [Frame.shift]) (by simp [AstOp.shift, Frame.shift, Function.comp_def])) (fun _ _ _ => ?_)
+            exact Sim.pure (by simp [ResRel, shiftRegs, shiftFrames, RVal.shift, Frame.shift])
+        | _ => exact Sim.throw _
+      all_goals exact Sim.throw _
+
+theorem es_call (regs : List RVal) (frames : List Frame) (f args kws) : ExecSim k hist regs frames (.call f args kws) := by
+  unfold ExecSim exec
+  simp only
+  rw [shiftRegs_get]
+  cases h : regs[f]? with
+  | none => exact Sim.throw _
+  | some x =>
+    cases x <;> simp only [Option.map, RVal.shift]
+    case fn fid ret names =>
+      refine Sim.ite (Sim.throw _) ?_
+      split
+      · exact Sim.throw _
+      · rename_i kwRegs _
+        refine Sim.ite (Sim.throw _) ?_
+        refine Sim.bind (mapM_getVal_sim regs _) (fun vs ws h => ?_)
+        subst h
+        sim_alloc
+        refine Sim.bind (childIds_sim vs) (fun ids ids' h => ?_)
+        subst h
+        sim_put
+        sim_done
+    all_goals exact Sim.throw _
+
+end NadaVerif.Lemmas
+
+namespace NadaVerif.Lemmas
+open NadaVerif
+
+variable {k : Nat} {hist : List (Id × AstOp)}
+
+theorem sh_inj {k a b : Nat} : sh k a = sh k b ↔ a = b := by
+  unfold sh; split <;> split <;> omega
+
+theorem find_erase (l : List (Id × AstOp)) (j : Id) :
+    (l.map eraseE).find? (·.1 == j) = (l.find? (·.1 == j)).map eraseE := by
+  rw [List.find?_map]; rfl
+
+theorem find_shift (l : List (Id × AstOp)) (c : Id) :
+    (l.map (shiftEraseE k)).find? (·.1 == sh k c) = (l.find? (·.1 == c)).map (shiftEraseE k) := by
+  induction l with
+  | nil => rfl
+  | cons e l ih =>
+    simp only [List.map_cons, List.find?_cons]
+    have : ((shiftEraseE k e).1 == sh k c) = (e.1 == c) := by
+      simp only [shiftEraseE]
+      by_cases h : e.1 = c
+      · simp [h]
+      · have h3 : ¬ sh k e.1 = sh k c := fun hh => h (sh_inj.mp hh)
+        rw [beq_eq_false_iff_ne.mpr h, beq_eq_false_iff_ne.mpr h3]
+    rw [this]
+    cases e.1 == c with
+    | true => rfl
+    | false => exact ih
+
+theorem find_old (hold : ∀ (i : Nat) (op : AstOp), (i, op) ∈ hist → 1 ≤ i ∧ i ≤ k) (c : Nat) :
+    (hist.map eraseE).find? (·.1 == sh k c) = none := by
+  rw [List.find?_eq_none]
+  intro e he
+  obtain ⟨e0, he0, rfl⟩ := List.mem_map.mp he
+  obtain ⟨i, op⟩ := e0
+  have h := hold i op he0
+  intro heq
+  simp only [eraseE, beq_iff_eq] at heq
+  have h2 : i = sh k c := heq
+  rw [h2] at h
+  unfold sh at h
+  split at h <;> omega
+
+theorem lookup_rel {s t : St} (hR : Rel k hist s t) (c : Id) :
+    (t.lookup (sh k c)).map AstOp.eraseIdx = (s.lookup c).map (fun op => (op.shift k).eraseIdx) := by
+  have h1 : (t.lookup (sh k c)).map AstOp.eraseIdx = ((t.ops.map eraseE).find? (·.1 == sh k c)).map (·.2) := by
+    rw [find_erase]; simp [St.lookup, eraseE, Function.comp_def]
+  rw [h1, hR.ops, List.find?_append, find_shift, find_old hR.old, Option.or_none]
+  simp [St.lookup, shiftEraseE, Function.comp_def]
+
+end NadaVerif.Lemmas
+
+namespace NadaVerif.Lemmas
+open NadaVerif
+
+variable {k : Nat} {hist : List (Id × AstOp)}
+
+theorem Sim.get {R : St → St → Prop} : Sim R (fun a b => R a b) (get : M St) (get : M St) := by
+  intro s t hR
+  simpa [ExceptT.run, StateT.run, get, getThe, MonadStateOf.get, liftM, monadLift, MonadLift.monadLift, ExceptT.lift, StateT.get,
+    Functor.map, StateT.map, ExceptT.mk, Pure.pure, StateT.pure, Bind.bind, StateT.bind] using ⟨hR, hR⟩
+
+theorem eraseIdx_input {op : AstOp} {n p d ty} (h : op.eraseIdx = .input n p d ty) : op = .input n p d ty := by
+  cases op <;> simp_all [AstOp.eraseIdx]
+
+theorem lookup_input {s t : St} (hR : Rel k hist s t) (c : Id) (n p d ty) :
+    s.lookup c = some (.input n p d ty) ↔ t.lookup (sh k c) = some (.input n p d ty) := by
+  have h := lookup_rel hR c
+  constructor
+  · intro hs
+    rw [hs] at h
+    cases ht : t.lookup (sh k c) with
+    | none => rw [ht] at h; simp at h
+    | some op' =>
+      rw [ht] at h
+      simp only [Option.map, AstOp.shift, AstOp.eraseIdx, Option.some.injEq] at h
+      rw [eraseIdx_input h]
+  · intro ht
+    rw [ht] at h
+    cases hs : s.lookup c with
+    | none => rw [hs] at h; simp at h
+    | some op =>
+      rw [hs] at h
+      simp only [Option.map, AstOp.eraseIdx, Option.some.injEq] at h
+      cases op <;> simp_all [AstOp.shift, AstOp.eraseIdx]
+
+theorem toMir_arrayOf (v : Val) (n : Option Int) (c c' : Option Id) :
+    (Val.array (.inst (v.shift k)) n c').toMir = (Val.array (.inst v) n c).toMir := toMir_array_inst v n c c'
+
+theorem es_arrayOf (regs : List RVal) (frames : List Frame) (r size) : ExecSim k hist regs frames (.arrayOf r size) := by
+  unfold ExecSim exec
+  simp only
+  refine Sim.ite (Sim.throw _) ?_
+  sim_val regs r
+  rename_i v
+  refine Sim.bind (childOf_sim v) (fun c c' h => ?_)
+  subst h
+  rw [toMir_arrayOf v size (some c)]
+  sim_liftE
+  refine Sim.bind Sim.get (fun s t hR => ?_)
+  split
+  · rename_i name pn doc ty0 hs
+    rw [(lookup_input hR c name pn doc ty0).mp hs]
+    simp only
+    sim_put
+    sim_done
+  · rename_i hno
+    split
+    · rename_i name pn doc ty0 ht
+      exact (hno name pn doc ty0 ((lookup_input hR c name pn doc ty0).mpr ht)).elim
+    · exact Sim.throw _
+
+end NadaVerif.Lemmas
+
+namespace NadaVerif.Lemmas
+open NadaVerif
+
+variable {k : Nat} {hist : List (Id × AstOp)}
+
+/-- every command is equivariant under the shift -/
+theorem exec_sim (regs : List RVal) (frames : List Frame) (c : Cmd) : ExecSim k hist regs frames c := by
+  cases c with
+  | party n => exact es_party regs frames n
+  | inputObj name doc p => exact es_inputObj regs frames name doc p
+  | wrap t r => exact es_wrap regs frames t r
+  | arrayOf r size => exact es_arrayOf regs frames r size
+  | lit base v => exact es_lit regs frames base v
+  | bin op a b => exact es_bin regs frames op a b
+  | invert a => exact es_invert regs frames a
+  | reveal a => exact es_reveal regs frames a
+  | truncPr a b => exact es_truncPr regs frames a b
+  | publicEquals a b => exact es_publicEquals regs frames a b
+  | ifElse c a b => exact es_ifElse regs frames c a b
+  | random t => exact es_random regs frames t
+  | radd n a => exact es_radd regs frames n a
+  | arrayNew xs => exact es_arrayNew regs frames xs
+  | tupleNew a b => exact es_tupleNew regs frames a b
+  | ntupleNew xs => exact es_ntupleNew regs frames xs
+  | objectNew fs => exact es_objectNew regs frames fs
+  | ntupleGet r i => exact es_ntupleGet regs frames r i
+  | objectGet r key => exact es_objectGet regs frames r key
+  | zip a b => exact es_zip regs frames a b
+  | unzip a => exact es_unzip regs frames a
+  | map a f => exact es_map regs frames a f
+  | reduce a f init => exact es_reduce regs frames a f init
+  | innerProduct a b => exact es_innerProduct regs frames a b
+  | beginFn name params => exact es_beginFn regs frames name params
+  | endFn ret retAnn => exact es_endFn regs frames ret retAnn
+  | call f args kws => exact es_call regs frames f args kws
+  | nop => exact es_nop regs frames
+
+/-- machine `m'` is machine `m` shifted by `k` on top of `hist` -/
+structure MRel (k : Nat) (hist : List (Id × AstOp)) (m m' : Mach) : Prop where
+  st : Rel k hist m.st m'.st
+  regs : m'.regs = shiftRegs k m.regs
+  frames : m'.frames = shiftFrames k m.frames
+
+theorem shiftRegs_append (a b : List RVal) : shiftRegs k (a ++ b) = shiftRegs k a ++ shiftRegs k b := by
+  simp [shiftRegs]
+
+theorem shiftRegs_dead (n : Nat) : shiftRegs k (List.replicate n RVal.dead) = List.replicate n RVal.dead := by
+  simp [shiftRegs, RVal.shift]
+
+theorem step_sim {m m' : Mach} (h : MRel k hist m m') (c : Cmd) :
+    MRel k hist (step m c).1 (step m' c).1 ∧ (step m c).2 = (step m' c).2 := by
+  have hs := exec_sim (k := k) (hist := hist) m.regs m.frames c m.st m'.st h.st
+  unfold step
+  rw [h.regs, h.frames]
+  generalize (exec m.regs m.frames c).run.run m.st = r1 at hs ⊢
+  generalize (exec (shiftRegs k m.regs) (shiftFrames k m.frames) c).run.run m'.st = r2 at hs ⊢
+  obtain ⟨e1, s1⟩ := r1
+  obtain ⟨e2, s2⟩ := r2
+  cases e1 with
+  | ok a =>
+    cases e2 with
+    | ok b =>
+      obtain ⟨hq, hr⟩ := hs
+      obtain ⟨v1, f1⟩ := a
+      obtain ⟨v2, f2⟩ := b
+      simp only [ResRel, Prod.mk.injEq] at hq
+      obtain ⟨rfl, rfl⟩ := hq
+      exact ⟨⟨hr, by simp [shiftRegs_append], rfl⟩, rfl⟩
+    | error e => exact hs.elim
+  | error e =>
+    cases e2 with
+    | ok b => exact hs.elim
+    | error e' =>
+      obtain ⟨rfl, hr⟩ := hs
+      refine ⟨⟨hr, by simp [shiftRegs_append, shiftRegs_dead], ?_⟩, rfl⟩
+      cases c <;> simp [shiftFrames, List.map_drop]
+
+theorem runCmds_sim : ∀ (cs : List Cmd) {m m' : Mach}, MRel k hist m m' →
+    MRel k hist (runCmds m cs).1 (runCmds m' cs).1 ∧ (runCmds m cs).2 = (runCmds m' cs).2
+  | [], _, _, h => ⟨h, rfl⟩
+  | c :: cs, m, m', h => by
+    have h1 := step_sim h c
+    have h2 := runCmds_sim cs h1.1
+    simp only [runCmds]
+    exact ⟨h2.1, by rw [h1.2, h2.2]⟩
 
 end NadaVerif.Lemmas
